@@ -5,6 +5,8 @@ Implementation driven (real code from $VERIF_REPO/src and the installed pydicom)
       scheme_version, __eq__, __ne__, __hash__, from_dataset(copy), from_code
   pydicom.sr.coding.Code            __eq__, __ne__, __hash__ (SRT -> SCT aliases)
   set / dict membership, pydicom dcmwrite / dcmread of a code sequence item
+  histories: API calls, user edits (meaning, code value / form, scheme, version), deepcopy / pickle (also into another
+      interpreter with its own hash salt), hash / set / dict uses before and after the edits
 Model: coq/theories/C17_Model.v; theorems: C17_Props.v.
 """
 import io
@@ -29,6 +31,10 @@ ORACLE_PREMISES = [
     'pydicom Dataset attribute assignment / getattr / hasattr / deepcopy return the str that was stored (no backslash in '
     'the alphabet); dcmwrite+dcmread return every attribute without its trailing blanks (modelled: rstrip; NUL padding and '
     'backslash = multi-value are not modelled)',
+    'hash(obj) is observed as the candidate string (all scheme+value combinations of the case) whose Python hash equals it: no '
+    'collision among these strings; copy.deepcopy / pickle round trip of an object = fresh object of the same class with the same '
+    'elements (nested item copied too) and nothing else; a pickle of the whole population into another interpreter preserves '
+    'identities and sharing (identity on the model heap); a plain pydicom Dataset is unhashable',
 ]
 MODELLED = ('sr/coding.py CodedConcept.__init__ (attribute selection, meaning guard), value / meaning / '
             'scheme_designator / scheme_version, __eq__ (code branch and the fall-through to Dataset.__eq__ for plain '
